@@ -624,9 +624,19 @@ fn maybe_unknown(decl: &PMessage, recs: &mut Vec<Vec<u8>>) {
             return;
         }
         // a field number the message does not declare
+        // half of the time next to a declared number (a gap between the members of a oneof, the
+        // number after the last field), otherwise anywhere in 1..3000
         let mut num = 1 + ((h >> 8) % 3000) as u32;
+        if (h >> 30) & 1 == 1 && !decl.fields.is_empty() {
+            let near = decl.fields[((h >> 8) as usize) % decl.fields.len()].number;
+            num = if (h >> 29) & 1 == 1 && near > 1 { near - 1 } else { near.saturating_add(1).min(536870911) };
+        }
+        let start = num;
         while decl.fields.iter().any(|f| f.number == num) || (19000..=19999).contains(&num) {
-            num += 1;
+            num = if num >= 536870911 { 1 } else { num + 1 };
+            if num == start {
+                break;
+            }
         }
         let payload: Vec<u8> = (0..((h >> 20) % 9)).map(|i| (h >> (i % 8)) as u8).collect();
         recs.push(unknown_record(num, ((h >> 28) % 5) as u8, &payload));
